@@ -289,10 +289,16 @@ def run(cfg, ops=None, rng=None):
             try:
                 sa, ea = exec_op(wa, op)
                 fa, la = wa.fired, wa.hooklog
+            except Watchdog as wd:
+                raise Violation("GUARD", "hang", step, "hang:" + op["op"], str(wd))
+            try:
                 sb, eb = exec_op(wb, op)
                 fb, lb = wb.fired, wb.hooklog
             except Watchdog as wd:
-                raise Violation("GUARD", "hang", step, "hang:" + op["op"], str(wd))
+                raise Violation(
+                    prop, "outcome", step, "outcome:%s:hang" % op["op"],
+                    "step %d %s: returned in the first universe, does not terminate in the second (%s)" % (step, op, wd),
+                )
             res.steps += 1
             res.bump("ops")
             res.bump("op_" + op["op"])
